@@ -54,7 +54,7 @@ def run_guarded(prog, vec, n, p, real, guards, ign=False, sites=False):
     """Execute body under a realisation on a clean state; returns Run and leaves the trace in H.R."""
     H.R.p = p
     H.R.want_sites = sites
-    H.reset(bitlength=n)
+    H.reset(bitlength=n, resolution=1)
     rt, B = H.rt, H.boolean
     operands = [E.make_operand(k, v) for k, v in zip(prog["kinds"], vec)]
     out = E.Outcome()
@@ -210,15 +210,15 @@ def _task(t):
                                "constraints %s not satisfied by the recorded witness" % r.unsat[:3])
                     if r.mism:
                         report("value!=wire-under-false-guard", real, guards, vec, "value/wire mismatch %s" % (r.mism[:1],))
-                    if real.startswith("ite") and r.value != OTHER:
+                    if real.startswith("ite") and r.value not in (OTHER, ("fxp", OTHER * 2)):    # fixed-point branch: the other value is re-scaled (resolution 1)
                         report("selection-wrong-under-false-guard", real, guards, vec,
                                "selection returned %r instead of the other branch's %d" % (r.value, OTHER))
                 else:
                     st["guard1_runs"] += 1
                     want = uval
                     if real.startswith("ite") and us == "ok":
-                        w = uval[0] if isinstance(uval, tuple) else uval
-                        want = vec[0] if w is None else w
+                        w = uval[0] if (isinstance(uval, tuple) and not (len(uval) == 2 and uval[0] == "fxp")) else uval
+                        want = (("fxp", vec[0]) if kinds[0] == "F" else vec[0]) if w is None else w
                     if (r.status, r.exc) != (us, uexc):
                         report("true-guard-not-transparent", real, guards, vec,
                                "outcome %s/%s differs from the unguarded outcome %s/%s" % (r.status, r.exc, us, uexc))
@@ -250,7 +250,7 @@ def _task(t):
                 inst = _inst_from_trace(r, p, n)
                 st["e2_instances"] += 1
                 rs = result_set(inst, st)
-                if rs is not None and rs != {(OTHER % p,)}:
+                if rs is not None and rs not in ({(OTHER % p,)}, {(OTHER * 2 % p,)}):
                     report("selection-not-unique-under-false-guard", real, (0,), vec,
                            "provable results of the selection: %s (expected only %d)" % (sorted(map(str, rs))[:3], OTHER))
             # guard 1: same set of provable results as unguarded; false assertions stay unprovable
@@ -281,7 +281,7 @@ def _init():
 
 
 def run(ctx):
-    progs = E.depth1_programs()
+    progs = E.depth1_programs(include_fxp=True)
     tasks = []
     cfgs = [(3, REC.BN128, False), (2, REC.BN128, True)]
     if ctx.thorough:
